@@ -353,6 +353,21 @@ def replay(v, path):
     from .c05 import export
     layouts, _ = export()
     info = json.load(open(os.path.join(path, "info.json")))
+    if "group" not in info:
+        # a record of one of the real-driver passes (kept results / FatalFirst / Requests, the discovery and silent-controller
+        # accounting, the gate): the pass is run again on the current tree and validated again
+        from . import common
+        rec = info.get("record", {})
+        tier = info.get("tier", "quick")
+        if "gate" in rec:
+            summ = common.harness_traces("c08gate", tier, shards=2, extra_args=["-x", "layouts=%s;port=%d" % (layouts, 28400)], timeout=1800)
+            common.validate(v, "Trace_Api", "Trace_Api.cfg", summ, lambda conj, r: "%s:%s:%s" % (conj, r["gate"]["scenario"], r["gate"]["role"]))
+        elif rec.get("op") in ("Quiesce", "Window"):
+            summ = common.harness_traces("c09disc", tier, shards=1, extra_args=["-x", "layouts=" + layouts], timeout=1800)
+            common.validate(v, "Trace_Api", "Trace_Api.cfg", summ, lambda conj, r: "%s:%s" % (conj, r.get("what")))
+        else:
+            common.kept_pass(v, tier)
+        return v.finish(write_evidence=False)
     g = info["group"]
     script = [f for f in glob.glob(os.path.join(path, "beh_*.ndjson"))]
     if not script:
